@@ -361,3 +361,188 @@ Proof.
   rewrite Z.mod_small by lia. change (18446744073709551616 / 2) with 9223372036854775808.
   assert (ts / 1000000000 <? 9223372036854775808 = true) as -> by lia. reflexivity.
 Qed.
+
+(* ---- one enhanced packet block: what the writer made of a packet is read back as that packet *)
+Definition wf_packet (ifs : list iface) (ifid ts caplen len : Z) (data : list Z) (o : popts) : Prop :=
+  0 <= ts < 9223372036854775808 /\ caplen = zlen data /\ caplen <= len /\ len < 4294967296
+  /\ wf_popts o /\ opts_bytes (popts_to_options o) + zlen data + 64 < 4294967296
+  /\ 0 <= ifid < 4294967296 /\ exists i, nth_error ifs (Z.to_nat ifid) = Some i /\ iface_ns i
+                          /\ (if_snap i = 0 \/ caplen <= if_snap i) /\ ifid < zlen ifs.
+
+Lemma zlen_opts_enc l : zlen (opts_enc l) = match l with [] => 0 | _ => opts_bytes l + 4 end.
+Proof.
+  destruct l as [|x t]; [reflexivity|]. unfold opts_enc. rewrite zlen_app. change (zlen [0;0;0;0]) with 4.
+  f_equal. generalize (x :: t). intros l. induction l as [|y u IH]; cbn [map concat opts_bytes fold_right]; [reflexivity|].
+  rewrite zlen_app, IH. destruct y as [c v]. rewrite zlen_opt_enc. reflexivity.
+Qed.
+
+Lemma exec_pkt_opts_written F o s rest :
+  (length (popts_to_options o) < F)%nat -> r_big s = false -> wf_popts o ->
+  r_blen s = zlen (opts_enc (popts_to_options o)) + 4 -> r_blen s < 4294967296 ->
+  exists s', exec (pkt_opts F empty_popts) s (opts_enc (popts_to_options o) ++ rest) = ((s', Ok o), rest)
+    /\ r_blen s' = 4 /\ core s' = core s.
+Proof.
+  intros HF Hbig Hwf Hb1 Hb2. rewrite zlen_opts_enc in Hb1.
+  destruct (popts_to_options o) as [|x t] eqn:E.
+  - (* no options written: the end of options is inferred from the remaining length *)
+    destruct F as [|f]; [cbn in HF; lia|]. cbn [opts_enc app pkt_opts].
+    destruct (exec_readOption_fake s rest ltac:(lia)) as (s1 & E1 & C1 & B1 & K1).
+    rewrite exec_bind, E1. cbv iota beta. rewrite exec_bind, exec_sget. cbv iota beta. rewrite C1. cbn [Z.eqb].
+    rewrite exec_sret. exists s1. repeat split; auto.
+    pose proof (popts_fold o Hwf) as P. rewrite E in P. cbn in P. rewrite P. reflexivity.
+  - unfold opts_enc. rewrite <- app_assoc. rewrite <- E in *.
+    destruct (exec_pkt_opts (popts_to_options o) F empty_popts s rest HF Hbig (popts_ok o Hwf) ltac:(rewrite E in *; lia) Hb2)
+      as (s1 & E1 & B1 & K1).
+    rewrite E1. rewrite (popts_fold o Hwf). exists s1. repeat split; auto.
+Qed.
+
+Lemma hdr20_fields a h l c d :
+  0 <= a < 4294967296 -> 0 <= h < 4294967296 -> 0 <= l < 4294967296 -> 0 <= c < 4294967296 -> 0 <= d < 4294967296 ->
+  let b := le_bytes 4 a ++ (le_bytes 4 h ++ le_bytes 4 l) ++ le_bytes 4 c ++ le_bytes 4 d in
+  zlen b = 20 /\ getu false (sl b 0 4) = a /\ ts_of false (sl b 4 12) = h * 4294967296 + l
+  /\ getu false (sl b 12 16) = c /\ getu false (sl b 16 20) = d.
+Proof.
+  intros Ha Hh Hl Hc Hd b. subst b.
+  assert (forall x, 0 <= x < 4294967296 -> le_val (le_bytes 4 x) = x) as L
+    by (intros; apply le_val_le_bytes; change (256 ^ Z.of_nat 4) with 4294967296; lia).
+  split; [rewrite !zlen_app, !zlen_le_bytes; reflexivity|].
+  unfold getu, ts_of. split; [rewrite sl_0 by apply le_bytes_length; apply L; exact Ha|].
+  split.
+  - rewrite (sl_skip (le_bytes 4 a) _ 4 4 12) by (try apply le_bytes_length; lia). cbn [Nat.sub].
+    rewrite <- app_assoc. unfold getu.
+    assert (sl (le_bytes 4 h ++ le_bytes 4 l ++ le_bytes 4 c ++ le_bytes 4 d) 0 8 = le_bytes 4 h ++ le_bytes 4 l) as ->.
+    { rewrite app_assoc. apply sl_0. rewrite app_length, !le_bytes_length. reflexivity. }
+    rewrite sl_0 by apply le_bytes_length.
+    rewrite (sl_skip (le_bytes 4 h) _ 4 4 8) by (try apply le_bytes_length; lia). cbn [Nat.sub].
+    rewrite sl_all by apply le_bytes_length. rewrite !L by assumption. reflexivity.
+  - rewrite (sl_skip (le_bytes 4 a) _ 4 12 16), (sl_skip (le_bytes 4 a) _ 4 16 20) by (try apply le_bytes_length; lia). cbn [Nat.sub].
+    rewrite (sl_skip (le_bytes 4 h ++ le_bytes 4 l) _ 8 8 12), (sl_skip (le_bytes 4 h ++ le_bytes 4 l) _ 8 12 16)
+      by (try (rewrite app_length, !le_bytes_length; reflexivity); lia). cbn [Nat.sub].
+    rewrite sl_0 by apply le_bytes_length.
+    rewrite (sl_skip (le_bytes 4 c) _ 4 4 8) by (try apply le_bytes_length; lia). cbn [Nat.sub].
+    rewrite sl_all by apply le_bytes_length. rewrite !L by assumption. split; reflexivity.
+Qed.
+
+Lemma enc_epb_shape ifs ifid ts caplen len data o :
+  wf_packet ifs ifid ts caplen len data o ->
+  let options := popts_to_options o in
+  let L := zlen (opts_enc options) + 32 + zlen data + pad4 (zlen data) in
+  enc_epb ifid ts caplen len data o =
+    le_bytes 4 6 ++ le_bytes 4 L
+    ++ (le_bytes 4 ifid ++ (le_bytes 4 (u32 (ts / 4294967296)) ++ le_bytes 4 (u32 ts)) ++ le_bytes 4 caplen ++ le_bytes 4 len)
+    ++ data ++ zeros (pad4 (zlen data)) ++ opts_enc options ++ le_bytes 4 L
+  /\ 32 <= L < 4294967296 /\ 0 <= ifid < 4294967296.
+Proof.
+  intros (Hts & Hcap & Hcl & Hlen & Hwf & Hsz & Hid0 & i & Ei & Hns & Hsnap & Hidlt). cbv zeta.
+  set (options := popts_to_options o) in *.
+  pose proof (opts_bytes_nonneg options) as Hob. pose proof (opts_bytes_mod4 options) as Hom.
+  pose proof (zlen_nonneg data) as Hd0. pose proof (pad4_range (zlen data)) as Hpd.
+  assert (opts_size options = zlen (opts_enc options)) as Hos
+    by (rewrite opts_size_small by lia; rewrite zlen_opts_enc; reflexivity).
+  assert (0 <= zlen (opts_enc options) <= opts_bytes options + 4 /\ zlen (opts_enc options) mod 4 = 0) as (Hz1 & Hz2).
+  { rewrite zlen_opts_enc. destruct options; [cbn; lia|]. split; [lia|]. Z.div_mod_to_equations; lia. }
+  unfold enc_epb. cbv zeta. fold options. rewrite Hos.
+  rewrite (u32_small (zlen data)) by lia.
+  rewrite (u32_small (zlen (opts_enc options) + 28 + zlen data + 4)) by lia.
+  assert ((4 - (zlen (opts_enc options) + 28 + zlen data + 4) mod 4) mod 4 = pad4 (zlen data)) as ->
+    by (unfold pad4; Z.div_mod_to_equations; lia).
+  rewrite (u32_small (zlen (opts_enc options) + 28 + zlen data + 4 + pad4 (zlen data))) by lia.
+  rewrite (u32_small ifid), (u32_small caplen), (u32_small len) by lia.
+  replace (zlen (opts_enc options) + 28 + zlen data + 4 + pad4 (zlen data))
+    with (zlen (opts_enc options) + 32 + zlen data + pad4 (zlen data)) by lia.
+  unfold enc_ts. split; [|lia].
+  repeat rewrite <- app_assoc. reflexivity.
+Qed.
+
+Lemma exec_epb ro F s ifid ts caplen len data o rest :
+  ro_mixed ro = true -> r_big s = false -> (length (popts_to_options o) + 2 < F)%nat ->
+  wf_packet (r_ifaces s) ifid ts caplen len data o ->
+  exists s' i, nth_error (r_ifaces s) (Z.to_nat ifid) = Some i /\
+    exec (readPacket ro F) s (enc_epb ifid ts caplen len data o ++ rest)
+      = ((s', Ok (mkPkt (mkCi ifid (ts / E9, ts mod E9) caplen len) (if_link i) data o)), rest)
+    /\ r_big s' = false /\ r_ifaces s' = r_ifaces s /\ r_link s' = r_link s /\ r_first s' = r_first s
+    /\ r_sect s' = r_sect s /\ r_names s' = r_names s.
+Proof.
+  intros Hmix Hbig HF Hwf. pose proof (enc_epb_shape _ _ _ _ _ _ _ Hwf) as (Hshape & HL & Hid). cbv zeta in *.
+  destruct Hwf as (Hts & Hcap & Hcl & Hlen & Hwo & Hsz & _ & i & Ei & Hns & Hsnap & Hidlt).
+  set (options := popts_to_options o) in *.
+  set (L := zlen (opts_enc options) + 32 + zlen data + pad4 (zlen data)) in *.
+  pose proof (zlen_nonneg data) as Hd0. pose proof (pad4_range (zlen data)) as Hpd.
+  assert (0 <= zlen (opts_enc options)) as Hoe by apply zlen_nonneg.
+  rewrite Hshape. destruct F as [|f]; [lia|].
+  destruct (hdr20_fields ifid (u32 (ts / 4294967296)) (u32 ts) caplen len ltac:(lia)
+              ltac:(unfold u32; apply Z.mod_pos_bound; lia) ltac:(unfold u32; apply Z.mod_pos_bound; lia) ltac:(lia) ltac:(lia))
+    as (Hb20 & Hf1 & Hf2 & Hf3 & Hf4).
+  set (b20 := le_bytes 4 ifid ++ (le_bytes 4 (u32 (ts / 4294967296)) ++ le_bytes 4 (u32 ts)) ++ le_bytes 4 caplen ++ le_bytes 4 len) in *.
+  rewrite ts_split in Hf2 by lia.
+  repeat rewrite <- app_assoc.
+  set (tail := data ++ zeros (pad4 (zlen data)) ++ opts_enc options ++ le_bytes 4 L ++ rest).
+  (* the header *)
+  assert (exists s1, exec (readPacketHeader ro (S f) (S f)) s (le_bytes 4 6 ++ le_bytes 4 L ++ b20 ++ tail) = ((s1, Ok tt), tail)
+            /\ r_big s1 = false /\ r_btyp s1 = 6 /\ r_blen s1 = L - 28
+            /\ r_ci s1 = mkCi ifid (ts / E9, ts mod E9) caplen len /\ r_ancil s1 = if_link i
+            /\ r_ifaces s1 = r_ifaces s /\ r_link s1 = r_link s /\ r_first s1 = r_first s /\ r_pcap s1 = r_pcap s
+            /\ r_sect s1 = r_sect s /\ r_names s1 = r_names s) as (s1 & Eh & A1 & A2 & A3 & A4 & A5 & A6 & A7 & A8 & A9 & A10 & A11).
+  { cbn [readPacketHeader]. cbv zeta.
+    rewrite exec_bind, exec_readBlock_plain by (try assumption; try lia; unfold BT_SHB; lia). cbv iota beta.
+    rewrite exec_bind, exec_sget. cbv iota beta. sim. cbn [Z.eqb Pos.eqb orb].
+    rewrite exec_bind, exec_rd_app by exact Hb20. cbv iota beta.
+    rewrite exec_bind, exec_sub_blen. cbv iota beta.
+    rewrite exec_bind, exec_sget. cbv iota beta. sim. rewrite Hf1, Hf2.
+    rewrite exec_bind, exec_smod. cbv iota beta. sim.
+    assert (zlen (r_ifaces s) <=? ifid = false) as -> by lia. rewrite Ei.
+    rewrite exec_bind. rewrite (convert_time_ns i ts Hns Hts). cbn [slift]. rewrite exec_sret. cbv iota beta.
+    rewrite exec_bind, exec_smod. cbv iota beta. sim. rewrite Hf3, Hf4.
+    rewrite exec_bind. unfold check_caplen. rewrite exec_bind, exec_sget. cbv iota beta. sim.
+    rewrite u32_small by lia.
+    assert (L - 8 - 20 <? caplen = false) as -> by (subst L; lia).
+    assert (len <? caplen = false) as -> by lia.
+    assert (negb (if_snap i =? 0) && (if_snap i <? caplen) = false) as -> by (destruct Hsnap; lia).
+    rewrite exec_sret. cbv iota beta.
+    rewrite exec_bind, exec_sget. cbv iota beta. sim. rewrite Ei. rewrite Hmix. cbn [negb].
+    rewrite exec_smod. eexists. split; [reflexivity|]. sim. repeat split; auto. lia. }
+  unfold readPacket. rewrite exec_bind, Eh. cbv iota beta.
+  rewrite exec_bind, exec_sget. cbv iota beta. rewrite A4, A2, A5. sim. rewrite A6, Ei.
+  (* allocation: three ways, the same afterwards *)
+  assert (exists s2, exec (if ro_zc ro
+             then if r_pcap s1 <? caplen
+                  then s_alloc (Z.max (if_snap i) caplen) (if_snap i);;; smod (fun s0 : rst => set_pcap s0 (Z.max (if_snap i) caplen))
+                  else sret tt
+             else s_alloc caplen (if_snap i)) s1 tail = ((s2, Ok tt), tail)
+          /\ r_big s2 = false /\ r_blen s2 = L - 28 /\ r_ifaces s2 = r_ifaces s /\ r_link s2 = r_link s
+          /\ r_first s2 = r_first s /\ r_sect s2 = r_sect s /\ r_names s2 = r_names s)
+    as (s2 & Ea & B1 & B2 & B3 & B4 & B5 & B6 & B7).
+  { destruct (ro_zc ro); [destruct (r_pcap s1 <? caplen)|].
+    - rewrite exec_bind, exec_s_alloc. cbv iota beta. rewrite exec_smod. eexists; split; [reflexivity|]. sim. repeat split; auto.
+    - rewrite exec_sret. eexists; split; [reflexivity|]. repeat split; auto.
+    - rewrite exec_s_alloc. eexists; split; [reflexivity|]. repeat split; auto. }
+  rewrite exec_bind, Ea. cbv iota beta. unfold tail.
+  rewrite exec_bind, exec_rd_app by (symmetry; exact Hcap). cbv iota beta.
+  rewrite exec_bind, exec_sub_blen. cbv iota beta. rewrite B2.
+  rewrite (u32_small (L - 28 - caplen)) by (subst L; lia).
+  (* padding of the packet data *)
+  rewrite exec_bind.
+  assert (exec (if 0 <? pad4 caplen then s_disc (pad4 caplen) else sret tt) (set_blen s2 (L - 28 - caplen))
+            (zeros (pad4 (zlen data)) ++ opts_enc options ++ le_bytes 4 L ++ rest)
+          = ((set_blen s2 (zlen (opts_enc options) + 4), Ok tt), opts_enc options ++ le_bytes 4 L ++ rest)) as ->.
+  { rewrite Hcap. destruct (0 <? pad4 (zlen data)) eqn:Ep.
+    - rewrite exec_disc_app by (apply zlen_zeros; lia). sim. rewrite u32_small by (subst L; lia).
+      replace (L - 28 - zlen data - pad4 (zlen data)) with (zlen (opts_enc options) + 4) by (subst L; lia).
+      destruct s2; reflexivity.
+    - assert (pad4 (zlen data) = 0) as -> by lia. change (zeros 0) with (@nil Z). cbn [app]. rewrite exec_sret.
+      replace (L - 28 - zlen data) with (zlen (opts_enc options) + 4) by (subst L; lia). reflexivity. }
+  cbv iota beta. cbn [Z.eqb Pos.eqb].
+  (* the options *)
+  rewrite exec_bind.
+  assert (exists s3, exec (pkt_opts (S f) empty_popts) (set_blen s2 (zlen (opts_enc options) + 4)) (opts_enc options ++ le_bytes 4 L ++ rest)
+             = ((s3, Ok o), le_bytes 4 L ++ rest) /\ r_blen s3 = 4 /\ core s3 = core (set_blen s2 (zlen (opts_enc options) + 4)))
+    as (s3 & Eo & C1 & C2).
+  { apply exec_pkt_opts_written; [fold options; lia | sim; exact B1 | exact Hwo | sim; fold options; lia | sim; subst L; lia]. }
+  rewrite Eo. cbv iota beta.
+  rewrite exec_bind, exec_sget. cbv iota beta. rewrite C1.
+  rewrite exec_bind, exec_disc_app by (rewrite zlen_le_bytes; reflexivity). cbv iota beta.
+  rewrite exec_sret. rewrite Hmix.
+  destruct (core_fields _ _ C2) as (D1 & D2 & D3 & D4 & D5 & D6 & D7 & D8 & D9 & D10 & D11 & D12). sim.
+  eexists. exists i. split; [first [exact Ei|reflexivity]|]. split; [reflexivity|]. sim.
+  repeat split; congruence.
+Qed.
